@@ -849,6 +849,26 @@ def C19(tier):
                        "symbolic: x of the start point on the top side of the first and of the end point on the bottom side of the last rectangle, strictly between "
                        "the corners (as phase5 calls it); panic sites included" % nm(q, "0..2 heights {20,20,20}", "0..3 heights {20,20,20},{10,30,20} plus the 44 generic-position corridors on grid 0..5; K=2 grid 0..5 heights {10,40},{40,10}")
                        + "; plus the 138 staircase corridors on grid 0..6 whose two consecutive reflex corners of one chain can both lie on the funnel")]
+    def sg(a, b):
+        return "+" if b > a else ("-" if b < a else "0")
+
+    def zigzag4(c, mirror):
+        l = [c["l[%d]" % i] for i in range(4)]
+        r = [c["r[%d]" % i] for i in range(4)]
+        if mirror:
+            l, r = [-x for x in r], [-x for x in l]
+        lp = "".join(sg(l[i], l[i + 1]) for i in range(3))
+        rp = "".join(sg(r[i], r[i + 1]) for i in range(3))
+        return rp == "-+-" and lp in ("-0+", "00+", "000", "-00")
+    k4 = [c for c in corridors(4, 4, [[10, 10, 10, 10]]) if zigzag4(c, False) or (not q and zigzag4(c, True))]
+    if q:
+        k4 = k4[::3]
+    else:
+        k4 += [c for c in corridors(4, 5, [[10, 10, 10, 10]]) if zigzag4(c, False) and c not in k4][::3]
+    obs.append(dict(name="shortest-open-four-rectangles", pkg="internal/geom", func="Harness_C19", consts={"OPEN": 1, "PANICS": 1}, cubes=k4, enctimeout=300, qtimeout=120, loop=64,
+                    bounds="corridors of FOUR rectangles on grid 0..4 (x10), equal heights, whose right wall narrows, widens and narrows again while the left wall is straight or steps "
+                           "out and back in%s: the funnel's right chain holds three vertices when a left vertex arrives (its tangent point lies in the middle of the chain); "
+                           "symbolic start/end x as in shortest-open" % (" (quick: every 3rd of the 99)" if q else "; plus the mirror images and every 3rd such corridor on grid 0..5")))
     corner = corridors(1, 1, [[20]])
     obs.append(dict(name="shortest-corner-class", pkg="internal/geom", func="Harness_C19", consts={"OPEN": 2, "PANICS": 1}, cubes=corner, enctimeout=60, qtimeout=60, loop=48,
                     replay_timeout=15, validate_cubes=0,
